@@ -45,6 +45,8 @@ func runReplayFile(c *core.Ctx) {
 		replayIdentityRecord(c, rf)
 	case "survey":
 		replaySurveyRecord(c, rf)
+	case "slot":
+		replaySlotRecord(c, rf)
 	default:
 		c.Infra("replay file %s: unknown record kind %q", c.Replay, probe.Kind)
 	}
@@ -241,5 +243,27 @@ func replaySurveyRecord(c *core.Ctx, rf replayFile) {
 	c.Out().Evaluations++
 	if err == nil && obs.Hash == obs0.Hash && obs.Parts.Equals(obs0.Parts) {
 		c.Violate(rf.Key, fmt.Sprintf("changing Header.%s (%s %s) changes neither Block.Hash() nor the part-set header", rec.Field, ls[rec.LeafIndex].path, d), rf.Record)
+	}
+}
+
+func replaySlotRecord(c *core.Ctx, rf replayFile) {
+	var rec struct {
+		KitSeed int64      `json:"kit_seed"`
+		Ntx     [2]int     `json:"ntx"`
+		Steps   []slotStep `json:"steps"`
+	}
+	if err := json.Unmarshal(rf.Record, &rec); err != nil || len(rec.Steps) == 0 {
+		c.Infra("replay file: bad slot record (%v)", err)
+		return
+	}
+	r := &slotReplay{seed: rf.Seed, retargets: map[string]int{}, drifts: map[string]string{}, replaced: map[string]int{}}
+	r.runSteps(rec.Steps, rec.KitSeed, rec.Ntx)
+	c.Out().Traces++
+	c.Out().Evaluations += r.steps
+	for _, v := range r.viol {
+		c.Violate(v.Key, v.Desc, v.Record)
+	}
+	for _, s := range r.infra {
+		c.Infra("%s", s)
 	}
 }
